@@ -35,6 +35,7 @@ def handle (j : Json) : Except String Json := do
   let ss ← (← jarr j "stmts").toList.mapM stmtOf
   match op with
   | "reformat" =>
+    if hasConflict (reformat ss).blocks then pure (Json.mkObj [("err", "ConflictingImportsError")]) else
     pure (Json.mkObj [("ok", Json.arr ((reformat ss).blocks.map blockJ).toArray)])
   | "tidy2" =>
     let unused ← (← jarr j "unused").toList.mapM fun u => do
@@ -47,7 +48,9 @@ def handle (j : Json) : Except String Json := do
     let mand ← impsOf j "mandatory"
     let fl : Flags := ⟨← jbool j "add_missing", ← jbool j "remove_unused", ← jbool j "add_mandatory"⟩
     match fixStage2 ss ⟨unused, missing⟩ known mand fl with
-    | .ok st => pure (Json.mkObj [("ok", Json.arr (st.blocks.map blockJ).toArray)])
+    | .ok st =>
+      if hasConflict st.blocks then pure (Json.mkObj [("err", "ConflictingImportsError")]) else
+      pure (Json.mkObj [("ok", Json.arr (st.blocks.map blockJ).toArray)])
     | .error e => pure (Json.mkObj [("err", errJ e)])
   | _ => throw s!"unknown op {op}"
 
